@@ -127,8 +127,11 @@ def gen_cell(rng, kind):
         if long_axis and rng.chance(0.5):
             return round(rng.uniform(12.0, 40.0) if rng.chance(0.7) else rng.uniform(40.0, 320.0), rng.choice([1, 2]))
         return round(rng.uniform(2.6, 9.5), rng.choice([1, 2, 4]))
+    def eps_deg():
+        # a deviation from a special angle that is tiny but real (down to 1e-5 degrees)
+        return rng.loguniform(1e-5, 2e-2) * (1 if rng.chance(0.5) else -1)
     if kind == "triclinic":
-        style = rng.weighted([("generic", 4), ("orthometric", 2), ("oblique", 3), ("nearspecial", 1)])
+        style = rng.weighted([("generic", 4), ("orthometric", 2), ("oblique", 3), ("nearspecial", 1), ("almostspecial", 2)])
         while True:
             if style == "orthometric":
                 ang = [90.0, 90.0, 90.0]
@@ -136,23 +139,33 @@ def gen_cell(rng, kind):
                 ang = [rng.choice([rng.uniform(58, 75), rng.uniform(105, 122)]) for _ in range(3)]
             elif style == "nearspecial":
                 ang = [rng.choice([90.0, 120.0, 60.0]) + rng.uniform(-0.5, 0.5) for _ in range(3)]
+            elif style == "almostspecial":
+                ang = [90.0 + eps_deg() for _ in range(3)]
+                return style, [L(), L(), L()] + ang
             else:
                 ang = [rng.uniform(60, 120) for _ in range(3)]
             ang = [round(x, 3) for x in ang]
             if _valid_angles(*ang):
                 return style, [L(), L(), L()] + ang
     if kind == "monoclinic":
-        style = rng.weighted([("generic", 4), ("orthometric", 2), ("oblique", 3)])
+        style = rng.weighted([("generic", 4), ("orthometric", 2), ("oblique", 3), ("almostspecial", 2)])
+        if style == "almostspecial":
+            return style, [L(), L(), L(), 90.0, 90.0 + eps_deg(), 90.0]
         be = 90.0 if style == "orthometric" else (
             rng.choice([rng.uniform(58, 75), rng.uniform(110, 135)]) if style == "oblique" else rng.uniform(60, 135))
         return style, [L(), L(), L(), 90.0, round(be, 3), 90.0]
     if kind == "orthorhombic":
-        style = rng.weighted([("generic", 4), ("a=b", 1)])
+        style = rng.weighted([("generic", 4), ("a=b", 1), ("a~b", 1)])
         a = L()
+        if style == "a~b":
+            # almost tetragonal metric: different families with almost, but not exactly, the same sin(theta)/lambda
+            return style, [a, a * (1.0 + rng.loguniform(1e-9, 1e-4)), L(), 90.0, 90.0, 90.0]
         return style, [a, a if style == "a=b" else L(), L(), 90.0, 90.0, 90.0]
     if kind == "tetragonal":
-        style = rng.weighted([("generic", 4), ("c=a", 1)])
+        style = rng.weighted([("generic", 4), ("c=a", 1), ("c~a", 1)])
         a = L()
+        if style == "c~a":
+            return style, [a, a, a * (1.0 + rng.loguniform(1e-9, 1e-4)), 90.0, 90.0, 90.0]
         return style, [a, a, a if style == "c=a" else L(), 90.0, 90.0, 90.0]
     if kind == "hexagonal":
         a = L()
@@ -192,6 +205,19 @@ def gen_shell(rng, cell, tier, scale, min_index=0):
         m = rng.below(10)
         smin = 0.0 if (m < 6 or min_index) else (-0.1 if m == 6 else rng.uniform(0.0, smax * 0.9))
         allstl = O.stl_of(O.box_points(cell, smax * scale), O.recip_metric(cell))
+        if rng.chance(0.3) and len(allstl):
+            # put a bound right next to a lattice value (still outside the 1e-9 clearance the quantifier asks for):
+            # this is where an approximate or differently rounded sin(theta)/lambda shows
+            import numpy as _np
+            inside = allstl[(allstl > 0.2 * smax) & (allstl <= smax)]
+            if len(inside):
+                v = float(inside[rng.below(len(inside))])
+                d = rng.loguniform(1e-8, 1e-3) * (1 if rng.chance(0.5) else -1)
+                if rng.chance(0.7) or smin <= 0:
+                    smax = v * (1.0 + d)
+                    allstl = O.stl_of(O.box_points(cell, smax * scale), O.recip_metric(cell))
+                else:
+                    smin = min(v * (1.0 + d), smax * 0.95)
         if O.margin_ok(allstl, [smin, smax, smax * scale]):
             return smin, smax
     return None
@@ -413,7 +439,7 @@ def generate(rng, tier, index):
             if fault_free:
                 sch = {"start": sch["start"], "preconsume": 0, "per_draw": {}}
             wops.append({"fn": "genhkl_all", "module": m, "mode": gen_mode(rng, w["sgno"], w["cell_choice"]),
-                         "output_stl": rng.chance(0.5), "rng": sch, "w": wi,
+                         "output_stl": rng.chance(0.5), "rng": sch, "w": wi, "kwcall": rng.chance(0.25),
                          "scribble": rng.choice([None, None, None, "scale", "zero"])})
         if wi == 0 and rng.chance(0.3):
             # state restore: repeat one call from the same start state (determinism probe)
@@ -425,7 +451,7 @@ def generate(rng, tier, index):
             m = module if rng.chance(0.8) else ("laue" if module == "tools" else "tools")
             wops.insert(rng.below(len(wops) + 1),
                         {"fn": "genhkl_unique", "module": m, "mode": gen_mode(rng, w["sgno"], w["cell_choice"]),
-                         "output_stl": rng.chance(0.5), "rng": None, "w": wi,
+                         "output_stl": rng.chance(0.5), "rng": None, "w": wi, "kwcall": rng.chance(0.25),
                          "scribble": rng.choice([None, None, "scale", "zero", "reverse"])})
         ops.append(wops)
     # interleave the workloads' calls (order inside one workload is kept)
@@ -636,7 +662,11 @@ def execute(trace):
                 seam.begin(op.get("rng"))
                 try:
                     try:
-                        out = fn(c.session_cell if cell_ is None else list(cell_), c.smin, c.smax, **kw)
+                        cell_arg = c.session_cell if cell_ is None else list(cell_)
+                        if op.get("kwcall"):
+                            out = fn(unit_cell=cell_arg, sintlmin=c.smin, sintlmax=c.smax, **kw)
+                        else:
+                            out = fn(cell_arg, c.smin, c.smax, **kw)
                         exc = None
                     except Exception as e:  # noqa
                         out, exc = None, "%s: %s" % (type(e).__name__, str(e)[:80])
